@@ -997,3 +997,15 @@ Theorem C02_extract_k_S_saturates : forall (g : sits) (j : nat), wf g ->
   extract_k_S g (S (length (node_ids g)) + j) = extract_k_S g (S (length (node_ids g))).
 Proof. exact extract_k_S_saturates. Qed.
 Print Assumptions C02_extract_k_S_saturates.
+
+(** 54. The maximum-radius context (n_knn = -1) contains the whole extension path of longest_radius_extension: the path has r atoms,
+        starts in a centre atom and every step is a bond, so its i-th atom lies within i < r bonds of the centre. *)
+Theorem C02_lre_path_in_context : forall g : its, wf g ->
+  forall x, In x (lre g (node_ids (get_rc g))) -> In x (node_ids (extract_k_z g (-1))).
+Proof. exact lre_path_in_context. Qed.
+Print Assumptions C02_lre_path_in_context.
+
+Theorem C02_max_radius_contains_radius_1 : forall g : its, wf g ->
+  forall n, In n (node_ids (extract_k g 1)) -> In n (node_ids (extract_k_z g (-1))).
+Proof. exact max_radius_contains_radius_1. Qed.
+Print Assumptions C02_max_radius_contains_radius_1.
